@@ -159,7 +159,7 @@ def ensure_facts(repo=None, verbose=True):
         lock.close()
 
 
-DETAIL_KEYS = ("blocks", "locals", "vars", "argc")
+DETAIL_KEYS = ("blocks", "locals", "vars", "argc", "promoted")
 
 
 def _build_index(d):
@@ -273,7 +273,9 @@ class Body:
         if self._detail is None:
             raw = self._facts._detail_for(self.unit)[self.path]
             import inline
-            self._detail = inline.normalise_result_returns(inline.normalise_bool_returns(inline.inline_detail(self._facts, self, raw)))
+            # canonical return forms first, so that a helper inlined into `return helper(..)` has its return sites threaded to the
+            # branch on the forwarded value
+            self._detail = inline.inline_detail(self._facts, self, inline.normalise_result_returns(inline.normalise_bool_returns(raw)))
         return self._detail
 
     @property
